@@ -106,3 +106,203 @@ Print Assumptions C09_purge_exact.
 Print Assumptions C09_connect_purges_exactly.
 Print Assumptions C09_disconnect_heights.
 Print Assumptions C09_reads_unchanged.
+
+(* ================================================================================================ *)
+(* RUN LEVEL (TowerRuns2.v; a moment of a run is a cut  h = pre ++ (o, sc) :: post, see TowerRuns.v).
+   Hypotheses: a bootstrapped tower and a history inside the envelope / chain discipline of TowerLive.v. *)
+From TeosModel Require Import TowerLive TowerRuns TowerRuns2.
+
+(* ONE STEP, every operation: what happens to the (start, expiry) window of every user.  Created by the first
+   registration with start = the gatekeeper's height and expiry = start + duration; pushed back by one duration
+   (saturating at u32::MAX) by each granted renewal of THAT user; removed by a block at height >= expiry + grace;
+   touched by nothing else - no request, no disconnection, no other user's registration. *)
+Theorem C09_window_step le t o sc u :
+  BigInv t -> envb t o = true ->
+  window (fst (step le t o sc)) u = window_after t o (snd (step le t o sc)) u.
+Proof. exact (window_step le t o sc u). Qed.
+
+Theorem C09_window_defs t o x u :
+  window t u = option_map (fun ui => (u_start ui, u_expiry ui)) (aget (db_users t) u) /\
+  window_after t o x u =
+  match o, x with
+  | ORegister v, ORegisterRes (RegOk _ _ _) =>
+      if N.eqb u v then
+        match window t u with
+        | None => Some (gk_height t, gk_height t + c_duration (cfg t))
+        | Some (s, e) => Some (s, N.min U32MAX (e + c_duration (cfg t)))
+        end
+      else window t u
+  | OConnect _ _, _ =>
+      match window t u with
+      | Some (s, e) => if N.leb (e + c_delta (cfg t)) (gk_height t + 1) then None else Some (s, e)
+      | None => None
+      end
+  | _, _ => window t u
+  end.
+Proof. split; reflexivity. Qed.
+
+(* the ghost kept along a run for user u: (granted registrations of u since u was last absent, the gatekeeper's
+   height at the first of them) *)
+Theorem C09_ghost_defs le u t o sc x t' g r :
+  ghost_step u t o x t' g =
+  (if amem (db_users t') u then
+     match o, x with
+     | ORegister v, ORegisterRes (RegOk _ _ _) =>
+         if N.eqb u v then (if N.eqb (fst g) 0 then (1, gk_height t) else (fst g + 1, snd g)) else g
+     | _, _ => g
+     end
+   else (0, 0)) /\
+  ghost_run le u t [] g = g /\
+  ghost_run le u t ((o, sc) :: r) g =
+  match snd (step le t o sc) with
+  | OAbort _ => g
+  | x => ghost_run le u (fst (step le t o sc)) r (ghost_step u t o x (fst (step le t o sc)) g)
+  end.
+Proof. repeat split; reflexivity. Qed.
+
+(* "expiry = h + duration, pushed back by one duration on every renewal": in every state a run reaches, for every
+   registered user: start = the gatekeeper's height at its first registration since it was last absent, expiry =
+   start + duration * (granted registrations since then), saturated at u32::MAX - and unsaturated whenever the
+   grace period is at least one block.  (Prefixes of histories inside the envelope are inside the envelope: this
+   is every moment of every run.) *)
+Theorem C09_expiry_formula_run le c h0 blocks t0 h u ui :
+  init c h0 blocks = Some t0 -> NoDup (map fst blocks) -> N.of_nat (length blocks) <= h0 ->
+  in_envelope le t0 h = true -> chain_disciplined le t0 h = true ->
+  aget (db_users (fst (run le t0 h))) u = Some ui ->
+  let n := fst (ghost_run le u t0 h (0, 0)) in
+  let s := snd (ghost_run le u t0 h (0, 0)) in
+  1 <= n /\ u_start ui = s /\ u_expiry ui = N.min U32MAX (s + c_duration c * n) /\
+  (1 <= c_delta c -> u_expiry ui = s + c_duration c * n).
+Proof. exact (expiry_formula_run le c h0 blocks t0 h u ui). Qed.
+
+(* the formula WITHOUT the saturation is false inside the envelope of TowerLive.v when the grace period is 0: the
+   second registration at height 100 with duration 2^31 saturates the expiry at u32::MAX (the envelope's renewal
+   clause min(u32::MAX, expiry + duration) + grace <= u32::MAX still holds).  This is the saturating_add of
+   Gatekeeper::add_update_user (F12's neighbourhood); with grace >= 1 the envelope excludes it. *)
+Theorem C09_expiry_formula_refuted :
+  exists le c h0 blocks t0 h u ui,
+    init c h0 blocks = Some t0 /\ NoDup (map fst blocks) /\ N.of_nat (length blocks) <= h0 /\
+    in_envelope le t0 h = true /\ chain_disciplined le t0 h = true /\
+    aget (db_users (fst (run le t0 h))) u = Some ui /\
+    u_expiry ui <> snd (ghost_run le u t0 h (0, 0)) + c_duration c * fst (ghost_run le u t0 h (0, 0)).
+Proof.
+  pose (c := mk_config 10 2147483648 0). pose (blocks := [(900, @nil N); (899, [])]).
+  destruct (init c 100 blocks) as [t0|] eqn:Ei; [|vm_compute in Ei; discriminate].
+  exists true, c, 100, blocks, t0, [(ORegister 1, []); (ORegister 1, [])], 1, (mk_uinfo 20 100 U32MAX).
+  split; [exact Ei|]. split; [exact boot2_nodup|]. split; [vm_compute; discriminate|].
+  vm_compute in Ei. injection Ei as <-. repeat split; vm_compute; try reflexivity. discriminate.
+Qed.
+
+(* "usable ... exactly while the tower's height is below its expiry; later requests fail with a subscription-expired
+   error that states the expiry": ONE STEP, and at every moment of every run: an add / get / get_subscription_info
+   request signed by a registered user is answered with the subscription-expired error iff height >= expiry, and the
+   error carries exactly that expiry *)
+Theorem C09_gate_exact le t o sc u ui :
+  Inv t -> aget (db_users t) u = Some ui -> request_of o = Some u ->
+  gate_reply (snd (step le t o sc)) = if N.leb (u_expiry ui) (gk_height t) then Some (u_expiry ui) else None.
+Proof. exact (gate_exact le t o sc u ui). Qed.
+
+Theorem C09_gate_defs o x :
+  request_of o = match o with
+                 | OAdd (Some v) _ _ _ _ | OGet (Some v) _ | OGetSub (Some v) => Some v
+                 | _ => None
+                 end /\
+  gate_reply x = match x with
+                 | OAddRes (AddExpired e) | OGetRes (GetExpired e) | OSubRes (SubExpired e) => Some e
+                 | _ => None
+                 end.
+Proof. split; reflexivity. Qed.
+
+Theorem C09_usable_iff_run le c h0 blocks t0 h pre o sc post u ui :
+  init c h0 blocks = Some t0 -> NoDup (map fst blocks) -> N.of_nat (length blocks) <= h0 ->
+  in_envelope le t0 h = true -> chain_disciplined le t0 h = true ->
+  h = pre ++ (o, sc) :: post ->
+  let t := fst (run le t0 pre) in
+  aget (db_users t) u = Some ui -> request_of o = Some u ->
+  gate_reply (snd (step le t o sc)) = if N.leb (u_expiry ui) (gk_height t) then Some (u_expiry ui) else None.
+Proof. exact (usable_iff_run le c h0 blocks t0 h pre o sc post u ui). Qed.
+
+(* "deleted exactly when a block at height >= expiry + grace period is connected - never earlier, never touching other
+   users": at every moment of every run, a user row present before the step is absent after it iff the step connects a
+   block at height >= its expiry + grace; and its window moves only as window_after says *)
+Theorem C09_no_other_deletion_run le c h0 blocks t0 h pre o sc post u ui :
+  init c h0 blocks = Some t0 -> NoDup (map fst blocks) -> N.of_nat (length blocks) <= h0 ->
+  in_envelope le t0 h = true -> chain_disciplined le t0 h = true ->
+  h = pre ++ (o, sc) :: post ->
+  let t := fst (run le t0 pre) in
+  let t' := fst (run le t0 (pre ++ [(o, sc)])) in
+  aget (db_users t) u = Some ui ->
+  (aget (db_users t') u = None <->
+   exists hash txs, o = OConnect hash txs /\ u_expiry ui + c_delta c <= gk_height t + 1) /\
+  window t' u = window_after t o (snd (step le t o sc)) u.
+Proof. exact (no_other_deletion_run le c h0 blocks t0 h pre o sc post u ui). Qed.
+
+Print Assumptions C09_window_step.
+Print Assumptions C09_window_defs.
+Print Assumptions C09_ghost_defs.
+Print Assumptions C09_expiry_formula_run.
+Print Assumptions C09_expiry_formula_refuted.
+Print Assumptions C09_gate_exact.
+Print Assumptions C09_gate_defs.
+Print Assumptions C09_usable_iff_run.
+Print Assumptions C09_no_other_deletion_run.
+
+(* ---------- non-vacuity: one concrete history (slots 10, duration 3, grace 2) ---------- *)
+Definition C09_ex_c := mk_config 10 3 2.
+Definition C09_ex_blocks : list (N * list N) := [(1006,[]);(1005,[]);(1004,[]);(1003,[]);(1002,[]);(1001,[])].
+Definition C09_ex_dummy := mk_tower C09_ex_c [] 0 [] [] [] 0 (mk_txindex [] [] [] 0 0) (mk_txindex [] [] [] 0 0) 0 [] [] [].
+Definition C09_ex_t0 := match init C09_ex_c 200 C09_ex_blocks with Some t => t | None => C09_ex_dummy end.
+(* user 1 registers at 200 and renews at 201 (expiry 206); user 2 registers at 201 (expiry 204); a reorg of one block;
+   user 2 is purged at 206 = 204 + 2 and registers again at 207; user 1 is purged at 208 = 206 + 2 *)
+Definition C09_ex_hist : list (op * script) :=
+  [ (ORegister 1, []); (OConnect 2001 [], []); (ORegister 1, []); (ORegister 2, []);
+    (OConnect 2002 [], []); (OConnect 2003 [], []); (ODisconnect, []); (OConnect 2004 [], []);
+    (OConnect 2005 [], []); (OGetSub (Some 2), []); (OGetSub (Some 1), []);
+    (OConnect 2006 [], []); (OConnect 2007 [], []); (OGetSub (Some 1), []); (OConnect 2008 [], []);
+    (ORegister 2, []); (OConnect 2009 [], []) ].
+
+Lemma C09_ex_blocks_nodup : NoDup (map fst C09_ex_blocks).
+Proof. repeat (constructor; [cbn; intuition discriminate|]). constructor. Qed.
+
+Example C09_ex_hyps :
+  init C09_ex_c 200 C09_ex_blocks = Some C09_ex_t0 /\ N.of_nat (length C09_ex_blocks) <= 200 /\
+  in_envelope true C09_ex_t0 C09_ex_hist = true /\ chain_disciplined true C09_ex_t0 C09_ex_hist = true.
+Proof. repeat split; vm_compute; try reflexivity. discriminate. Qed.
+
+(* after the first 9 steps (height 204): user 1 has 2 registrations since 200, user 2 one since 201 *)
+Example C09_ex_formula_computed :
+  let h := firstn 9 C09_ex_hist in
+  let t := fst (run true C09_ex_t0 h) in
+  (gk_height t, db_users t, ghost_run true 1 C09_ex_t0 h (0, 0), ghost_run true 2 C09_ex_t0 h (0, 0))
+  = (204, [(1, mk_uinfo 20 200 206); (2, mk_uinfo 10 201 204)], (2, 200), (1, 201)).
+Proof. vm_compute. reflexivity. Qed.
+
+Example C09_ex_formula_applied :
+  let h := firstn 9 C09_ex_hist in
+  exists ui, aget (db_users (fst (run true C09_ex_t0 h))) 1 = Some ui /\
+             u_expiry ui = snd (ghost_run true 1 C09_ex_t0 h (0, 0)) + 3 * fst (ghost_run true 1 C09_ex_t0 h (0, 0)).
+Proof.
+  cbv zeta. destruct (aget (db_users (fst (run true C09_ex_t0 (firstn 9 C09_ex_hist)))) 1) as [ui|] eqn:Eu; [|vm_compute in Eu; discriminate].
+  exists ui. split; [reflexivity|].
+  assert (He : in_envelope true C09_ex_t0 (firstn 9 C09_ex_hist) = true) by (vm_compute; reflexivity).
+  assert (Hc : chain_disciplined true C09_ex_t0 (firstn 9 C09_ex_hist) = true) by (vm_compute; reflexivity).
+  destruct C09_ex_hyps as [Hi [Hlen _]].
+  destruct (C09_expiry_formula_run true C09_ex_c 200 C09_ex_blocks C09_ex_t0 (firstn 9 C09_ex_hist) 1 ui Hi C09_ex_blocks_nodup Hlen He Hc Eu)
+    as [_ [_ [_ Hexact]]].
+  apply Hexact. vm_compute. discriminate.
+Qed.
+
+(* the gate at height 204: user 2 (expiry 204) is told SubscriptionExpired 204, user 1 (expiry 206) is served;
+   the purges: user 2 at height 206, user 1 at height 208, nobody at any other step; user 2 starts afresh at 207 *)
+Example C09_ex_gate_and_purges :
+  let outs := snd (run true C09_ex_t0 C09_ex_hist) in
+  (nth 9 outs OBlockRes, nth 10 outs OBlockRes, nth 13 outs OBlockRes) =
+  (OSubRes (SubExpired 204), OSubRes (SubOk 20 206 []), OSubRes (SubExpired 206)) /\
+  map (fun i => map fst (db_users (fst (run true C09_ex_t0 (firstn i C09_ex_hist))))) [12; 13; 15; 16; 17]%nat
+  = [[1; 2]; [1]; [1]; [1; 2]; [2]] /\
+  map (fun i => gk_height (fst (run true C09_ex_t0 (firstn i C09_ex_hist)))) [12; 13; 15; 16; 17]%nat
+  = [205; 206; 207; 207; 208] /\
+  (let h := C09_ex_hist in
+   (db_users (fst (run true C09_ex_t0 h)), ghost_run true 2 C09_ex_t0 h (0, 0), ghost_run true 1 C09_ex_t0 h (0, 0)))
+  = ([(2, mk_uinfo 10 207 210)], (1, 207), (0, 0)).
+Proof. vm_compute. repeat split; reflexivity. Qed.
